@@ -1329,8 +1329,11 @@ class LangServer:
             for _, tmp_file in self.workspace.items():
                 tmp_file.ast.resolve_includes(self.workspace, path=path)
             file_obj.ast.resolve_includes(self.workspace)
-            # Update inheritance (currently file only)
-            # tmp_file.ast.resolve_links(self.obj_tree, self.link_version)
+            # Update inheritance/links of all files: inherited components and
+            # procedure links cached in other files point into the old syntax tree
+            self.link_version = (self.link_version + 1) % 1000
+            for _, tmp_file in self.workspace.items():
+                tmp_file.ast.resolve_links(self.obj_tree, self.link_version)
         elif file_obj.preproc:
             file_obj.preprocess(pp_defs=self.pp_defs)
             self.pp_defs = {**self.pp_defs, **file_obj.pp_defs}
